@@ -87,6 +87,8 @@ func protocolMore(t *testing.T, bind *Binding, job *Job, p *sdl.Program, acc *st
 				closers = append(closers, i.ID)
 			}
 		}
+		var first *model.Obs
+		var firstSpec SpecData
 		for i, s := range sweepSpecs(p, job, SpecData{Close: true}) {
 			if i >= 1 {
 				// a seed-chosen subset of the closers fails
@@ -96,7 +98,27 @@ func protocolMore(t *testing.T, bind *Binding, job *Job, p *sdl.Program, acc *st
 					}
 				}
 			}
-			do(s)
+			o := do(s)
+			if first == nil && o.OK() && len(s.Faults) == 0 {
+				first, firstSpec = o, s
+			}
+		}
+		// the initialization of a closer fails the first time it is attempted: either the start
+		// fails, or the closer is there (created by a later attempt) and gets closed like the others
+		if first != nil {
+			isCloser := map[string]bool{}
+			for _, c := range closers {
+				isCloser[c] = true
+			}
+			n := 0
+			for _, site := range first.Sites {
+				if kind, rest, ok := strings.Cut(site, ":"); ok && (kind == "init" || kind == "aps") && strings.HasSuffix(rest, "#0") && n < 4 {
+					if subj, _, _ := strings.Cut(rest, "#"); isCloser[subj] {
+						n++
+						do(faultSpec(firstSpec, first, site))
+					}
+				}
+			}
 		}
 	case "C13":
 		specs := sweepSpecs(p, job, SpecData{})
